@@ -3,6 +3,17 @@
 def _has(recs, ev, n=1):
     return sum(1 for r in recs if r.get("ev") == ev) >= n
 
+def _evictions(recs):
+    """count Create events after which a previously live key disappeared"""
+    n, live = 0, set()
+    for r in recs:
+        if "live" in r:
+            now = set(r["live"])
+            if r.get("ev") == "Create" and (live - now):
+                n += 1
+            live = now
+    return n
+
 PROPS = {
     "C20": dict(
         specdir="p2p", engine="c20",
@@ -12,5 +23,15 @@ PROPS = {
         rule="seeded random histories (Add/Next/Ready/Eject over 5 torrents, 20-60 calls + final drain) on the real QueueImpl; "
              "distinct = distinct event sequences; non-trivial = some Next returned a torrent and the history contains Eject and Ready",
         assumptions=["Add(h) is only issued for a torrent not currently queued (documented undefined otherwise)"],
+    ),
+    "C07": dict(
+        specdir="store", engine="c07",
+        mc=[dict(module="BlobStore", cfg="MC_BlobStore.cfg")],
+        trace=dict(module="BlobStoreTrace", cfg="BlobStoreTrace.cfg"),
+        nontrivial=lambda recs: _evictions(recs) >= 1 and _has(recs, "MarkComplete", 2),
+        rule="seeded random histories (40-80 calls over 4 keys, capacities {1,3,4,8}, all scopes, movable and non-movable "
+             "metadata, Clean, sharded/unsharded) on a real disk.Store in a temp dir; every call logged with reply class and "
+             "post-call eviction order / reserved bytes / live keys; non-trivial = at least one eviction by admission and two completions",
+        assumptions=["eviction order and reserved bytes are read through an export-only overlay shim (harness/overlay/lib/store/disk)"],
     ),
 }
